@@ -554,3 +554,33 @@ pub fn replay(r: &serde_json::Value) -> Result<String, String> {
         multi_bit(&s, true).map(|n| format!("{n} alterations refused")).map_err(|e| e.2)
     }
 }
+
+/// Replay of one confusable-credentials case: the typed pair against the account registered as recorded.
+/// None = the record lacks the inputs (coarse replay is used instead).
+pub fn replay_confusable(r: &serde_json::Value) -> Option<Result<String, String>> {
+    let g = |v: &serde_json::Value| v.as_str().map(|s| s.to_string());
+    let (ru, rp) = (g(&r["registered"][0])?, g(&r["registered"][1])?);
+    let (tu, tp) = (g(&r["typed"][0])?, g(&r["typed"][1])?);
+    let (run_, rpn) = (refmodel::misc::normalize(&ru).ok()?, refmodel::misc::normalize(&rp).ok()?);
+    let (ntu, ntp) = (refmodel::misc::normalize(&tu), refmodel::misc::normalize(&tp));
+    if ntu.is_err() || ntp.is_err() {
+        use wow_srp::normalized_string::NormalizedString as NS;
+        for (a, b) in [(NS::new(tu.as_str()).ok(), NS::new(tp.as_str()).ok()), (NS::from_string(tu.clone()).ok(), NS::from_string(tp.clone()).ok())] {
+            if let (Some(a), Some(b)) = (a, b) {
+                if a.as_ref().as_bytes() == &run_[..] && b.as_ref().as_bytes() == &rpn[..] {
+                    return Some(Err(format!("the typed pair {tu:?} / {tp:?} is not a permitted credential, yet the library turns it into the registered pair {ru:?} / {rp:?}")));
+                }
+            }
+        }
+        return Some(Ok("the library does not turn the non-permitted typed pair into the registered one".into()));
+    }
+    let same = ntu.unwrap() == run_ && ntp.unwrap() == rpn;
+    let li = LoginInput { reg_user: &ru, reg_pass: &rp, typed_user: &tu, typed_pass: &tp, salt: mc::util::unhex_n::<32>(r["salt"].as_str()?), b: mc::util::unhex_n::<32>(r["b"].as_str()?), a: mc::util::unhex_n::<32>(r["a"].as_str()?), storage_roundtrip: false };
+    Some(match (same, real_login(&li)) {
+        (true, Ok(_)) => Ok("same credentials up to letter case: accepted".into()),
+        (false, Err(LoginFail::Refused("into_server", _))) => Ok("different credentials: refused by the server".into()),
+        (false, Ok(_)) => Err(format!("the server accepted a client that typed {tu:?} / {tp:?} for the account registered as {ru:?} / {rp:?}")),
+        (_, Err(LoginFail::Redrawn)) => Ok("skipped: the library draws again for a degenerate scripted value".into()),
+        (_, Err(e)) => Err(format!("unexpected outcome {e:?}")),
+    })
+}
